@@ -927,6 +927,12 @@ func doStep(r *res.Request, st string) {
 		panic(42)
 	case "panic-nilerr":
 		panic((*res.Error)(nil))
+	case "panic-typednil":
+		// an error value whose Error method cannot be called: a nil pointer of an error type that dereferences
+		// its receiver (what `var e *os.PathError; ...; panic(e)` gives)
+		panic((*os.PathError)(nil))
+	case "panic-errpanics":
+		panic(brokenError{})
 	case "panic-nil":
 		var v interface{}
 		panic(v)
@@ -942,7 +948,7 @@ var replySteps = map[string][]string{
 	"call":   {"ok", "ok-nil", "ok-bad", "ok-panic-marshal", "error-panic-data", "ok-bad-reserr", "ok-bad-wrapped", "resource", "resource-bad", "notfound", "methodnotfound", "invalidparams", "invalidparams-msg", "invalidquery", "error-res", "error-plain", "error-res-ctl", "error-plain-ctl", "invalidparams-ctl", "invalidquery-ctl"},
 }
 var otherSteps = []string{"tokenreset", "tokenreset-empty", "tokenreset-mixed", "tokenreset-dup", "tokenreset-none", "ev-dollar", "ev-punct", "ev-empty", "ev-space", "ev-wild", "ev-gt", "ev-q", "ev-del", "ev-dot", "timeout-max", "timeout-sub", "timeout-zero", "ev-custom-bad", "ev-change-bad", "ev-add-bad", "timeout", "timeout-neg", "ev-custom", "ev-reserved", "ev-malformed", "ev-change", "ev-change-empty", "ev-add", "ev-add-neg", "ev-remove",
-	"ev-remove-neg", "ev-create", "ev-delete", "ev-reaccess", "ev-reset", "panic-res", "panic-err", "panic-str", "panic-int", "panic-nilerr", "panic-nil", "panic-str-ctl",
+	"ev-remove-neg", "ev-create", "ev-delete", "ev-reaccess", "ev-reset", "panic-res", "panic-err", "panic-str", "panic-int", "panic-nilerr", "panic-typednil", "panic-errpanics", "panic-nil", "panic-str-ctl",
 	"try-ev-custom", "try-ev-change", "try-ev-add", "try-ev-remove", "try-ev-create", "try-ev-delete", "try-ok", "try-panic-str", "try-ev-reserved"}
 
 func alphabet(sc *Scenario) []string {
@@ -1009,14 +1015,24 @@ func classify(m rec, clause string) string {
 		}
 	case has("panic-nilerr"):
 		return clause + ":panic-with-nil-error"
+	case has("panic-typednil") || has("panic-errpanics"):
+		return clause + ":panic-error-method-panics"
 	}
 	return clause + ":other"
 }
+
+// brokenError is an error whose Error method panics.
+type brokenError struct{}
+
+func (brokenError) Error() string { panic("Error method panicked") }
 
 func crashClass(sc Scenario) string {
 	for _, st := range sc.Script {
 		if st == "panic-nilerr" {
 			return "panic-nilerr"
+		}
+		if st == "panic-typednil" || st == "panic-errpanics" {
+			return "panic-error-method-panics"
 		}
 	}
 	return "other"
